@@ -2,8 +2,11 @@
 #ifndef SIM_C14A_H_
 #define SIM_C14A_H_
 
+#include <map>
 #include <string>
 #include <vector>
+
+#include "cctz/time_zone.h"
 
 #include "engine.h"
 #include "ops.h"
@@ -23,7 +26,16 @@ struct C14aCase {
   int64_t interval = -1;        // enum: which hint state (interval index) the setter establishes
   std::vector<Step> steps;      // explicit history (random mode, and every replay file)
   bool explicit_steps = false;
+  // part "order": several zones are loaded one after another in this order; each must then look exactly as it does in
+  // a process that loads nothing else (its fingerprint, taken in such a process, is in `want`).
+  std::vector<std::string> order_bases;
+  std::map<std::string, std::string> want;
 };
+
+// A digest of how a loaded zone behaves around the end of its stored table and in the years after it.
+std::string zone_fingerprint(const cctz::time_zone& tz, const std::string& bytes);
+std::string fingerprint_of_base_alone(const std::string& base);   // loads the base (and nothing else) in this process
+extern std::map<std::string, std::string> g_c14_refs;             // base -> fingerprint from a process of its own (worker option --refs)
 
 J c14a_to_json(const C14aCase& c);
 bool c14a_from_json(const J& j, C14aCase* c);
